@@ -20,6 +20,7 @@ import (
 //   hooks        identity HookValueLoadPre / HookValueLoadPost / HookValueStore
 //   hooks2       identity HookValueLoadPre / HookValueLoadPost that calls doCompute only for computed values
 //   gnil         empty global table (GlobalValueLoadFunc -> nil) + identity GlobalValueLoadOverwriteFunc
+//   spexpr       stream parser: 'R' then an operand read with the stream's own ReadExpr; the handler evaluates the operand
 //   gjson:<hex>  global variables served from a JSON variable map that is decoded afresh on every load
 //   rewr         identity CustomDetailRewriteFunc / CustomDetailSpanRewriteFunc
 // Output: "<ok VALUE d=DETAIL m=MATCHED r=REST seed=SEED|err MSG> vars=… calls=<hex log of handler calls>"
@@ -147,6 +148,30 @@ func customLine(t []string) string {
 					}
 					return &ds.CustomDiceParseResult{Matched: true, Groups: []string{"", digits}, Payload: digits}, nil
 				}, handler("sphash"))
+			case sp == "spexpr":
+				// 'R' followed by an operand read with the stream's own ReadExpr; the handler evaluates that operand
+				_ = vm.RegCustomDiceParser(func(ctx *ds.Context, s *ds.CustomDiceStream) (*ds.CustomDiceParseResult, error) {
+					r, ok := s.Read()
+					if !ok || r != 'R' {
+						return nil, nil
+					}
+					v, ok, err := s.ReadExpr("")
+					if err != nil || !ok || v == nil {
+						return &ds.CustomDiceParseResult{Matched: false}, nil
+					}
+					return &ds.CustomDiceParseResult{Matched: true, Payload: v}, nil
+				}, func(ctx *ds.Context, groups []string, payload any) (*ds.VMValue, string, error) {
+					log = append(log, "spexpr|"+strings.Join(groups, "\x1f"))
+					cv, _ := payload.(*ds.VMValue)
+					if cv == nil {
+						return nil, "", fmt.Errorf("no operand")
+					}
+					res := cv.ComputedExecute(ctx, nil)
+					if ctx.Error != nil {
+						return nil, "", ctx.Error
+					}
+					return res, "", nil
+				})
 			case strings.HasPrefix(sp, "gjson:"):
 				// a host whose global variables live in a JSON document and are DECODED ON EVERY LOAD (each load hands out a fresh object)
 				doc, ok := unhx(sp[6:])
